@@ -164,6 +164,9 @@ func (f *Fam) Gen(r *rand.Rand, i int) string {
 	ver := f.a.ms.LastCommitID().Version
 	switch x := r.Intn(100); {
 	case x < 35:
+		if r.Intn(10) == 0 { // an existing key with an empty value (a marker / index entry)
+			return fmt.Sprintf("set %s %s -", st(), genKey(r))
+		}
 		return fmt.Sprintf("set %s %s %s", st(), genKey(r), hx([]byte{byte(r.Intn(256)), byte(r.Intn(3))}))
 	case x < 45:
 		return fmt.Sprintf("del %s %s", st(), genKey(r))
